@@ -326,7 +326,9 @@ int utimensat(int d, const char *a, const struct timespec t[2], int flags) {
     REAL(int, utimensat, int, const char *, const struct timespec *, int);
     if (!active) return real_utimensat(d, a, t, flags);
     char b1[PATH_MAX];
-    const char *p1 = a ? absolute(d, a, b1, sizeof b1) : path_of_fd(d);
+    const char *volatile va = a;
+    const char *pa = va;
+    const char *p1 = pa ? absolute(d, pa, b1, sizeof b1) : path_of_fd(d);
     PATH_CALL_INT('m', "utimens", p1, NULL, "", real_utimensat(d, a, t, flags));
 }
 
@@ -513,7 +515,11 @@ int statx(int dirfd, const char *path, int flags, unsigned mask, struct statx *b
     REAL(int, statx, int, const char *, int, unsigned, struct statx *);
     if (!active) return real_statx(dirfd, path, flags, mask, buf);
     char b1[PATH_MAX];
-    const char *p1 = (path && path[0]) ? absolute(dirfd, path, b1, sizeof b1) : path_of_fd(dirfd);
+    /* the prototype declares path nonnull, but Rust's std probes statx(0, NULL, 0, mask, NULL): keep the
+     * compiler from assuming path != NULL */
+    const char *volatile vpath = path;
+    const char *pp = vpath;
+    const char *p1 = (pp && pp[0]) ? absolute(dirfd, pp, b1, sizeof b1) : path_of_fd(dirfd);
     PATH_CALL_INT('r', (flags & AT_SYMLINK_NOFOLLOW) ? "lstat" : "stat", p1, NULL, "", real_statx(dirfd, path, flags, mask, buf));
 }
 
